@@ -6,7 +6,7 @@ out="$1"; wt="$2"; dest="$3"; shift 3
 export GOFLAGS=-mod=mod GOPROXY=off GOSUMDB=off GOTOOLCHAIN=local
 cd "$wt" || exit 9
 git checkout -q -- . && git clean -fdq
-mkdir -p "$dest"; cp "$out"/demo/*.go "$dest"/ 2>/dev/null
+mkdir -p "$dest"; cp "$out"/demo/${DEMOGLOB:-*.go} "$dest"/ 2>/dev/null
 echo "--- WITHOUT change:"; ( "$@" > /tmp/seedv.$$ 2>&1; echo "rc=$?"; tail -3 /tmp/seedv.$$ )
 git apply "$out/patch.diff" || { echo PATCH-FAILS; exit 8; }
 echo "--- build:"; go build ./... 2>&1 | tail -3
